@@ -468,6 +468,19 @@ func (it *Interp) opOpenQuery(op *Op) {
 		}
 		it.run(op, true, func(b *Backend) {
 			oq := b.openQ[op.Q]
+			// the world has been locked since the query was opened: Count and EntityAt of the open query still describe
+			// the entities it matched then, whatever happened to the registration of its filter in between
+			if c := oq.q.Count(); c != mq.total {
+				fail("query|open|count-later", "%s step %d: open query %d of filter %d: Count=%d after %d entities were visited, %d matched when it was opened", b.Name, it.Step, op.Q, oq.filter, c, len(oq.visited), mq.total)
+			}
+			if mq.total > 0 {
+				for _, i := range []int{0, mq.total - 1, (it.Step * 7) % mq.total} {
+					h := oq.q.EntityAt(i)
+					if s, known := b.Ser[h]; !known || !oq.expected[s] {
+						fail("query|open|entityAt-later", "%s step %d: open query %d of filter %d: EntityAt(%d)=%v, which did not match when the query was opened", b.Name, it.Step, op.Q, oq.filter, i, h)
+					}
+				}
+			}
 			for i := 0; i < calls; i++ {
 				ok := oq.q.Next()
 				last := exhaust && i == calls-1
